@@ -247,7 +247,8 @@ def law_instances(rng, nv):
 
 class D18(Extra):
     RULE = ('the six non-expansion laws with random dense-time operands and bounds: both sides through the dense offline monitor and, for past-time instances, '
-            'through the dense online monitor (one update with the whole signal); the two results must denote the same function at every tick of the domain')
+            'through the dense online monitor (one update with the whole signal); the two results must denote the same function at every tick of the domain; '
+            'plus the bounded laws (and their always / historically duals) over staircase signals of 4-14 plateaus with windows of 4-8 ticks')
 
     def gen(self, rng, tier):
         out = []
@@ -259,6 +260,22 @@ class D18(Extra):
                     continue
                 nvv = need_vars(l, nv)
                 out.append({'law': law, 'lhs': l, 'rhs': r, 'nv': nvv, 'sigs': gen_sigs(rng, nvv, minn=1), 'n': 0})
+        # the bounded laws over staircase signals with windows of 4-8 ticks: one window covers several plateaus, so the two
+        # sliding-window implementations (max / min) each have to drop more than one dominated segment at a time
+        for _ in range(n):
+            p = ('pred', rng.choice(['geq', 'leq']), ('var', 0), ('const', rng.randint(-2, 3)))
+            a = rng.choice([0, 0, 2, 4])
+            b = a + rng.choice([4, 6, 8])
+            c_, d = rng.choice([0, 2]), rng.choice([2, 4])
+            law, l, r = rng.choice([
+                ('not_eventually', ('not', ('evt', a, b, p)), ('alwt', a, b, ('not', p))),
+                ('not_always', ('not', ('alwt', a, b, p)), ('evt', a, b, ('not', p))),
+                ('not_once_bounded', ('not', ('oncet', a, b, p)), ('histt', a, b, ('not', p))),
+                ('not_historically_bounded', ('not', ('histt', a, b, p)), ('oncet', a, b, ('not', p))),
+                ('eventually_eventually', ('evt', a, b, ('evt', c_, d, p)), ('evt', a + c_, b + d, p)),
+                ('always_always', ('alwt', a, b, ('alwt', c_, d, p)), ('alwt', a + c_, b + d, p)),
+                ('once_once', ('oncet', a, b, ('oncet', c_, d, p)), ('oncet', a + c_, b + d, p))])
+            out.append({'law': law, 'lhs': l, 'rhs': r, 'nv': 1, 'sigs': [dense.gen_signal(rng, maxn=7, stair=True)], 'n': 0})
         return out
 
     def features(self, c):
